@@ -812,6 +812,7 @@ class Controller(object):
         # Note: closest points because we are suddenly increasing delta & rho, so we want to encourage spreading out points
         self.delta = self.rhobeg
         self.rho = self.rhobeg
+        self.rhoend = params("restarts.rhoend_scale") * self.rhoend  # keep in step with the main loop's rhoend
         self.diffs = [0.0, 0.0, 0.0]
         
         # Forget history of slow iterations
